@@ -16,6 +16,32 @@
 
   NOT proved here: that the C code equals the model (correspondence check), anything about dlopen
   itself, int overflow in _cmp_f, the MAXPATHLEN guard of the ancestor walk.
+
+  THE LOADER'S I/O, exactly.  The model takes the world as parameters of `Env`/`Dir`/`File`; the
+  correspondence check runs the real binary under harness/preload_shim.c, which makes the world BE
+  those parameters for the calls the binary really imports (verified with `nm -D` on every run):
+    CONTROLLED by the shim, hence exercised for every value the generator draws
+      getuid / geteuid                  -> Env.uid, Env.euid (set*id become no-ops)
+      opendir / readdir / closedir      -> Dir.files in the prescribed enumeration order (names only;
+                                           "." / ".." / names that do not exist included), for the
+                                           module directory in use; closedir never fails
+      stat (the only stat-family import)-> File.st and Dir.path: st_uid / st_mode (type bits included)
+                                           of every entry, of every ancestor up to "/", and of the
+                                           pdsh binary (Env.owner); failure (ENOENT) per path
+      dlopen                            -> only LOGGED (Result.opened); the call itself is real
+      getenv PDSH_MODULE_DIR / PDSH_MISC_MODULES, argv[0] (pdsh / pdcp) -> Env.envDir, Env.misc, Env.pers
+    REAL and TRUSTED (parameters of the model whose values come from real files the check builds)
+      dlopen / dlsym / dlclose          : that a generated module yields the descriptor compiled into
+                                           it (`Obj.mod d`), that a text file / directory does not load
+                                           (`Obj.noload`), that RTLD_GLOBAL does not make one pool
+                                           module's symbols shadow another's (the pool exports only
+                                           pdsh_module_info / pdsh_module_priority via a version script)
+      the kernel's path resolution      : `dir/..` chains reach "/" (st_ino / st_dev of the real
+                                           directories decide where the ancestor walk stops)
+      getpwuid (local user), getcwd / chdir in the error path, glibc getopt (for option dispatch)
+    NOT MODELLED: st_gid / group permissions, ACLs, symlink attributes (stat follows links: a link
+      to a secure file is as good as the file), races between stat and dlopen (TOCTOU), MAXPATHLEN,
+      opendir failing after the path test passed, int overflow of priorities.
 -/
 import PdshVerif.Mod.Determinism
 import PdshVerif.Mod.TieLemmas
